@@ -11,6 +11,8 @@ Fixpoint na (X : ident -> bool) (s : stmt) {struct s} : bool :=
   | SBlock b => forallb (na X) b
   | SIf init _ t e => na_opt init && forallb (na X) t && match e with Some l => forallb (na X) l | None => true end
   | SFor init _ post body => na_opt init && na_opt post && forallb (na X) body
+  | SSwitch init _ cls => na_opt init && forallb (na X) cls
+  | SCase _ body _ => forallb (na X) body
   end.
 
 Definition na_opt (X : ident -> bool) (o : option stmt) : bool :=
@@ -43,6 +45,7 @@ Fixpoint wf (s : stmt) {struct s} : bool :=
       && negb (is_some init && negb (is_some c) && negb (is_some post))
       && (negb (has_lv init c post) || negb (match body with [] => true | _ => false end))
       && match loopvar_of init c post with Some x => forallb (na (Nat.eqb x)) body | None => true end
+  | SSwitch _ _ _ | SCase _ _ _ => false
   | _ => true
   end.
 
